@@ -17,6 +17,7 @@ import (
 	clientCmd "github.com/bokysan/socketace/v2/internal/commands/client"
 	serverCmd "github.com/bokysan/socketace/v2/internal/commands/server"
 	"github.com/bokysan/socketace/v2/internal/server"
+	"github.com/bokysan/socketace/v2/internal/socketace"
 	"github.com/bokysan/socketace/v2/internal/util/addr"
 	"github.com/bokysan/socketace/v2/internal/util/cert"
 	"github.com/bokysan/socketace/v2/internal/version"
@@ -58,6 +59,8 @@ type upSpec struct {
 	// Host: spelling of the host in the upstream address ("" = 127.0.0.1). With "localhost" a working server presents a
 	// certificate that is valid for localhost only.
 	Host string `json:"host,omitempty"`
+	// Secret (udp only): the endpoint is protected by a shared secret which the upstream address carries
+	Secret bool `json:"shared_secret,omitempty"`
 }
 
 type caseDesc struct {
@@ -134,6 +137,8 @@ func startServer(kind string, port int, withCert bool, tgt *vlib.Target) (*serve
 			Endpoints: server.WebsocketEndpointList{server.HttpEndpoint{Endpoint: "/ws/all"}}}
 	case "udp":
 		srv = &server.PacketServer{ServerConfig: sc, Address: addr.MustParseAddress(fmt.Sprintf("udp://127.0.0.1:%d", port))}
+	case "udp+secret":
+		srv = &server.PacketServer{ServerConfig: sc, Address: addr.MustParseAddress(fmt.Sprintf("udp://:s3cret@127.0.0.1:%d", port))}
 	}
 	cmd := &serverCmd.Command{
 		Channels: server.Channels{&server.NetworkChannel{AbstractChannel: server.AbstractChannel{ProtoName: addr.ProtoName{Name: "data"}, Address: addr.MustParseAddress(tgt.URL())}}},
@@ -178,7 +183,11 @@ func build(spec upSpec, idx int, mustSecure bool) (*endpoint, error) {
 			serverCertHost[e.port] = spec.Host
 			serverCertMu.Unlock()
 		}
-		srv, err := startServer(spec.Kind, e.port, withCert, e.tgt)
+		skind := spec.Kind
+		if spec.Kind == "udp" && spec.Secret {
+			skind = "udp+secret"
+		}
+		srv, err := startServer(skind, e.port, withCert, e.tgt)
 		if err != nil {
 			e.close()
 			return nil, err
@@ -190,6 +199,9 @@ func build(spec upSpec, idx int, mustSecure bool) (*endpoint, error) {
 			cport = e.relay.Port
 		}
 		e.up = mkUpstreamHost(spec.Kind, spec.Host, cport)
+		if spec.Kind == "udp" && spec.Secret {
+			e.up = &upstream.Packet{Address: addr.MustParseAddress(fmt.Sprintf("udp://:s3cret@127.0.0.1:%d", cport))}
+		}
 	case fRefused:
 		e.port = vlib.Port() // nothing listens here
 		e.up = mkUpstreamHost(spec.Kind, spec.Host, e.port)
@@ -482,7 +494,11 @@ func runCase(d caseDesc, abandonBound time.Duration) (problem string, inconclusi
 		time.Sleep(100 * time.Millisecond)
 		var err error
 		for i := 0; i < 20; i++ {
-			e.srv, err = startServer(e.spec.Kind, e.port, true, e.tgt)
+			rkind := e.spec.Kind
+			if rkind == "udp" && e.spec.Secret {
+				rkind = "udp+secret"
+			}
+			e.srv, err = startServer(rkind, e.port, true, e.tgt)
 			if err == nil {
 				break
 			}
@@ -718,6 +734,86 @@ func TestDirectConnectionsHoweverTheyEnd(t *testing.T) {
 				vlib.Rec.Violation(map[string]interface{}{"property": "C16", "case": d, "problem": problem})
 				t.Errorf("C16 %+v: %s", d, problem)
 			}
+		}
+	}
+}
+
+// TestReconnectKeepsTheConfiguration: after the session to the chosen upstream is lost, the next local connection is served
+// again through the same upstream as configured - with everything its address says (here: the shared secret of a UDP
+// endpoint, a TLS scheme), not with what is left of it after the first connection.
+func TestReconnectKeepsTheConfiguration(t *testing.T) {
+	cases := []caseDesc{
+		{Ups: []upSpec{{Kind: "udp", Fate: fWorks, Secret: true}}, Forward: "none", K: 1, Loss: "server-restart", After: 2},
+		{Ups: []upSpec{{Kind: "udp", Fate: fWorks, Secret: true}}, Forward: "none", K: 2, Loss: "none"},
+		{Ups: []upSpec{{Kind: "udp", Fate: fWorks}}, Forward: "none", K: 1, Loss: "server-restart", After: 2},
+		{Ups: []upSpec{{Kind: "tcp+tls", Fate: fWorks}}, Forward: "none", K: 1, Loss: "server-restart", After: 2},
+	}
+	problems := make([]string, len(cases))
+	inconcl := make([]bool, len(cases))
+	var wg sync.WaitGroup
+	for i := range cases {
+		wg.Add(1)
+		go func(i int) { defer wg.Done(); problems[i], inconcl[i] = runCase(cases[i], 75*time.Second) }(i)
+	}
+	wg.Wait()
+	for i, d := range cases {
+		if inconcl[i] {
+			vlib.Rec.Inconclusive("setup")
+			continue
+		}
+		vlib.Rec.Case(fmt.Sprintf("%+v", d), true, append(describe(d), "reconnect-keeps-configuration"), func() interface{} { return d })
+		if problems[i] != "" {
+			vlib.Rec.Violation(map[string]interface{}{"property": "C16", "case": d, "problem": problems[i]})
+			t.Errorf("C16 %+v: %s", d, problems[i])
+		}
+	}
+}
+
+// TestUpstreamObjectsConnectAgain: the client re-establishes a lost session by connecting the same configured upstream
+// object again (Upstreams.open). For every kind of upstream - among them a UDP endpoint protected by a shared secret - the
+// second and third connection of one object must succeed like the first against the unchanged server.
+func TestUpstreamObjectsConnectAgain(t *testing.T) {
+	old := socketace.HandshakeTimeout
+	socketace.HandshakeTimeout = 5 * time.Second
+	defer func() { socketace.HandshakeTimeout = old }()
+	for _, kind := range []string{"tcp", "tcp+tls", "http", "ws", "udp", "udp+secret"} {
+		tgt := vlib.NewTarget("server0", vlib.BannerEchoHandler)
+		port := vlib.Port()
+		srv, err := startServer(kind, port, true, tgt)
+		if err != nil {
+			tgt.Close()
+			vlib.Rec.Inconclusive("bind")
+			continue
+		}
+		var up upstream.Upstream
+		if kind == "udp+secret" {
+			up = &upstream.Packet{Address: addr.MustParseAddress(fmt.Sprintf("udp://:s3cret@127.0.0.1:%d", port))}
+		} else {
+			up = mkUpstream(kind, port)
+		}
+		d := map[string]interface{}{"kind": kind, "connections_of_one_upstream_object": 3}
+		problem := ""
+		for attempt := 1; attempt <= 3 && problem == ""; attempt++ {
+			done := make(chan error, 1)
+			go func() { done <- up.Connect(&cert.ClientConfig{InsecureSkipVerify: true}, false) }()
+			select {
+			case err := <-done:
+				if err != nil {
+					problem = fmt.Sprintf("connection %d of the same %s upstream object fails although the server is unchanged: %v", attempt, kind, err)
+				} else {
+					up.Close()
+				}
+			case <-time.After(20 * time.Second):
+				problem = fmt.Sprintf("connection %d of the same %s upstream object does not return within 20s", attempt, kind)
+			}
+			time.Sleep(50 * time.Millisecond)
+		}
+		func() { defer func() { recover() }(); srv.Shutdown() }()
+		tgt.Close()
+		vlib.Rec.Case(fmt.Sprintf("connect-again %s", kind), true, []string{"upstream-object-connects-again", "kind:" + kind}, func() interface{} { return d })
+		if problem != "" {
+			vlib.Rec.Violation(map[string]interface{}{"property": "C16", "connect_again": d, "problem": problem})
+			t.Errorf("C16 %v: %s", d, problem)
 		}
 	}
 }
